@@ -45,6 +45,16 @@ Definition ptr_val (o : option nat) : val :=
 (* element pointers and elements as IR values *)
 Definition eptr_val (p : eptr) : val := VPtr p.
 Definition val_eptr (v : val) : option eptr := match v with VPtr p => Some p | _ => None end.
+(* the one-word handle as a byte pointer into a block *)
+Definition handle_val (h : handle) : val :=
+  match h with
+  | Sentinel => VCtor "SentinelPtr" []
+  | At b off => VCtor "BytePtr" [VObj b; VInt off]
+  end.
+Definition minivec_val (h : handle) : val :=
+  VStruct "MiniVec" [("buf", handle_val h); ("phantom", VCtor "PhantomData" [])].
+Definition raw_parts_val (r : eptr * Z * Z) : val :=
+  VTuple [VPtr (fst (fst r)); VInt (snd (fst r)); VInt (snd r)].
 Definition opt_elem_val (o : option elem) : val :=
   match o with Some e => VCtor "Some" [VInt e] | None => VCtor "None" [] end.
 
@@ -117,6 +127,7 @@ Section Prims.
       match args with [VObj v] => k (VCtor "Buf" [VObj v]) s | _ => stuck f s end
     else if is ".is_null" then
       match args with
+      | [VPtr p] => k (VBool (match p with PNull => true | _ => false end)) s
       | [x] => match ctor_is "Null" x, ctor_is "Block" x with
                | Some [], _ => k (VBool true) s
                | _, Some _ => k (VBool false) s
@@ -126,6 +137,31 @@ Section Prims.
       end
     else if is ".cast::<Header>" || is ".cast::<T>" || is "NonNull::new_unchecked" then
       match args with [p] => k p s | _ => stuck f s end
+    else if is "ManuallyDrop::new" then
+      match args with [x] => k x s | _ => stuck f s end
+    else if is ".cast::<u8>" then
+      match args with
+      | [VPtr p] => lift_k (byte_of cfg p) (fun x => VCtor "BytePtr" [VObj (fst x); VInt (snd x)]) s k
+      | _ => stuck f s
+      end
+    else if is ".sub" then
+      match args with
+      | [p; VInt n] => match ctor_is "BytePtr" p with
+                       | Some [VObj b; VInt o] => k (VCtor "BytePtr" [VObj b; VInt (o - n)]) s
+                       | _ => stuck f s
+                       end
+      | _ => stuck f s
+      end
+    else if is "field:len" || is "field:cap" then
+      (* the len / cap words of the header, read through a rebuilt handle *)
+      match args with
+      | [p] => match ctor_is "BytePtr" p with
+               | Some [VObj b; VInt o] =>
+                   lift_k (hdr_block (At b o)) (fun x => VInt (if is "field:len" then h_len (snd x) else h_cap (snd x))) s k
+               | _ => stuck f s
+               end
+      | _ => stuck f s
+      end
     else if is "null" || is "null_mut" then
       match args with [] => k (eptr_val PNull) s | _ => stuck f s end
     else if is ".add" then
@@ -174,7 +210,15 @@ Section Prims.
     (* ---- ptr::read / write / copy / replace, the length word ---- *)
     else if is "read" then
       match args with
-      | [p] => match val_eptr p with Some q => lift_k (slot_read cfg q) VInt s k | None => stuck f s end
+      | [p] => match val_eptr p with
+               | Some q => lift_k (slot_read cfg q) VInt s k
+               | None =>
+                   (* ptr::read(self.buf.as_ptr().cast::<Header>()): the three header words *)
+                   match ctor_is "BufPtr" p with
+                   | Some [VObj v] => lift_k (bind (vec_handle v) hdr_block) header_val s k
+                   | _ => stuck f s
+                   end
+               end
       | _ => stuck f s
       end
     else if is "write" then
@@ -231,7 +275,17 @@ Section Prims.
                        end
       | _ => stuck f s
       end
-    else if is "from_raw_parts_mut" then
+    else if is "dealloc" then
+      match args with
+      | [p; l] =>
+          match ctor_is "BufPtr" p, ctor_is "Layout" l with
+          | Some [VObj v], Some [VInt sz; VInt al] =>
+              lift_k (bind (vec_handle v) (fun h => do_dealloc h sz al)) vunit s k
+          | _, _ => stuck f s
+          end
+      | _ => stuck f s
+      end
+    else if is "from_raw_parts_mut" || is "slice_from_raw_parts_mut" then
       match args with [p; VInt n] => k (VCtor "SliceMut" [p; VInt n]) s | _ => stuck f s end
     else if is "drop_in_place" then
       match args with
